@@ -1,7 +1,7 @@
 """C07 -- effect-trace obligations; see contracts/traces.py for the obligation definitions."""
 from contracts import traces, c03
 
-ALWAYS_STANDIN = False
+ALWAYS_STANDIN = True       # kill points (incl. the first open of a fresh directory) run natively on every change
 POLS = ['least-recently-stored', 'least-recently-used']
 
 
